@@ -311,6 +311,46 @@ def explore(args):
     return acc.export()
 
 
+def explore_long(args):
+    """One window, hundreds of renders in a row (menu entries taken with a stride; every 10th render repeats the previous one):
+    anything that counts renders, ages a cache or accumulates scroll bookkeeping meets its threshold."""
+    tier, seed, h, w, keep, hide, k0, stride = args
+    acc = Acc(seed=seed, sample_stride=499)
+    world = World(keep, hide)
+    desc, term0 = [(d, t) for d, t in initial_terms(h, w) if d["kind"] == "printed_lines" and d["k"] == k0][0]
+    base = {"size": [h, w], "keep_last_line": keep, "hide_cursor": hide, "initial": {"kind": "printed_lines", "k": k0}, "family": "one window, hundreds of renders", "stride": stride}
+    T0 = term0.r
+    hist0 = history_lines(term0, T0)
+    try:
+        st = world.enter(term0.copy())
+    except Exception as ex:  # noqa
+        acc.failure("C07:enter_raises:" + type(ex).__name__, base, repr(ex))
+        return acc.export()
+    T = T0
+    n = 900 if tier == "thorough" else 300
+    last = None
+    tail = []
+    for step in range(n):
+        options = list(menu(h, w, step, 4))
+        arr, cur = options[(step * stride) % len(options)]
+        if last is not None and step % 10 == 9:
+            arr, cur = last
+        case = dict(base, step=step, last_renders=tail[-3:], render=show_arr(arr), cursor=list(cur))
+        acc.case(True, key=("long", h, w, keep, hide, k0, stride, step), sample=case)
+        acc.transitions += 1
+        res = check_render(acc, world, st, T, hist0, arr, cur, case, None)
+        if res is None:
+            break
+        st, T, _ = res
+        last = (arr, cur)
+        tail.append([show_arr(arr), list(cur)])
+        if step % 50 == 49:
+            check_exit(acc, world, st, T, hist0, dict(base, step=step))
+    world.close()
+    acc.validated = acc.n
+    return acc.export()
+
+
 WIDE_TEXTS = ("", "こ", "こん", "aこb", "e\u0301te\u0301", "abcde", "こんa", "こんに", "a\u200db", "xこ\u0301y")
 
 
@@ -413,6 +453,9 @@ def run(ctx):
     wide = [(ctx.tier, ctx.seed, h, w, k0, 3 if ctx.thorough else 2) for (h, w) in ((3, 7), (2, 9)) for k0 in range(0, h + 1)]
     for d in ctx.pmap(explore_wide, wide):
         rep.merge(d, "wide_characters")
+    sess = [(ctx.tier, ctx.seed, h, w, keep, hide, k0, stride) for (h, w) in ((3, 3), (2, 5)) for keep in (False, True) for hide in (True, False) for k0, stride in ((0, 1), (2, 7), (h, 5))]
+    for d in ctx.pmap(explore_long, sess):
+        rep.merge(d, "one_window_hundreds_of_renders")
     longl = [(ctx.tier, ctx.seed, 3, w, k0, 3 if ctx.thorough else 2, "long_lines") for w in (48, 60) for k0 in (0, 2, 4)]
     for d in ctx.pmap(explore_wide, longl):
         rep.merge(d, "long_lines_sharing_prefixes")
